@@ -163,6 +163,10 @@ package cose
 //@   ensures [ok=>headers] err == nil ==> result != nil && fresh(result) && CoseSignedAttrsOf(result, e.base.Headers.Protected)
 //@   ensures [ok=>signature] err == nil ==> result.Signature == e.base.Signature && len(result.Signature) > 0
 //@   ensures [ok=>no-expiry] (err == nil && !has(e.base.Headers.Protected, box("io.cncf.notary.expiry"))) ==> result.SignedAttributes.Expiry.IsZero()
+// stmt C08/C01 (COSE unsigned attributes): the signing agent and the timestamp token are read from the unprotected
+// header when they have the expected dynamic type, and are empty otherwise
+//@   ensures [ok=>agent] err == nil ==> (typeof(e.base.Headers.Unprotected[box("io.cncf.notary.signingAgent")]) == type(string) ==> result.UnsignedAttributes.SigningAgent == unbox(e.base.Headers.Unprotected[box("io.cncf.notary.signingAgent")], type(string))) && (typeof(e.base.Headers.Unprotected[box("io.cncf.notary.signingAgent")]) != type(string) ==> result.UnsignedAttributes.SigningAgent == "")
+//@   ensures [ok=>timestamp-token] err == nil ==> (typeof(e.base.Headers.Unprotected[box("io.cncf.notary.timestampSignature")]) == type([]byte) ==> result.UnsignedAttributes.TimestampSignature == unbox(e.base.Headers.Unprotected[box("io.cncf.notary.timestampSignature")], type([]byte))) && (typeof(e.base.Headers.Unprotected[box("io.cncf.notary.timestampSignature")]) != type([]byte) ==> len(result.UnsignedAttributes.TimestampSignature) == 0)
 //@   ensures [ok=>chain] err == nil ==> typeof(e.base.Headers.Unprotected[box(gocose.HeaderLabelX5Chain)]) == type([]any) && CoseChainOf(result.CertificateChain, X5Chain(e.base)) && nx509.ChainInput(result.CertificateChain)
 //@   loop 0
 //@     invariant len(certChain) == it && (it > 0 ==> fresh(certChain))
@@ -174,7 +178,9 @@ package cose
 //@     c.Payload.Content == m.Payload && typeof(m.Headers.Protected[box(gocose.HeaderLabelContentType)]) == type(string) && c.Payload.ContentType == unbox(m.Headers.Protected[box(gocose.HeaderLabelContentType)], type(string)) &&
 //@     c.SignerInfo.Signature == m.Signature && len(c.SignerInfo.Signature) > 0 && CoseSignedAttrsOf(fieldptr(c, SignerInfo), m.Headers.Protected) &&
 //@     typeof(m.Headers.Unprotected[box(gocose.HeaderLabelX5Chain)]) == type([]any) && CoseChainOf(c.SignerInfo.CertificateChain, X5Chain(m)) &&
-//@     (!has(m.Headers.Protected, box("io.cncf.notary.expiry")) ==> c.SignerInfo.SignedAttributes.Expiry.IsZero()) }
+//@     (!has(m.Headers.Protected, box("io.cncf.notary.expiry")) ==> c.SignerInfo.SignedAttributes.Expiry.IsZero()) &&
+//@     (typeof(m.Headers.Unprotected[box("io.cncf.notary.signingAgent")]) == type(string) ==> c.SignerInfo.UnsignedAttributes.SigningAgent == unbox(m.Headers.Unprotected[box("io.cncf.notary.signingAgent")], type(string))) &&
+//@     (typeof(m.Headers.Unprotected[box("io.cncf.notary.signingAgent")]) != type(string) ==> c.SignerInfo.UnsignedAttributes.SigningAgent == "") }
 
 // stmt C08 (COSE round trip, part 1): what a successful format-level Sign leaves in the message, as one predicate
 //@ stmt spec func CoseSignedAs(req *signature.SignRequest, m *gocose.Sign1Message) bool {
@@ -184,11 +190,13 @@ package cose
 //@     RawTimeAt(m.Headers.Protected, box(signingSchemeTimeLabelMap[req.SigningScheme]), req.SigningTime) &&
 //@     (has(m.Headers.Protected, box("io.cncf.notary.expiry")) <==> !req.Expiry.IsZero()) && (!req.Expiry.IsZero() ==> RawTimeAt(m.Headers.Protected, box("io.cncf.notary.expiry"), req.Expiry)) &&
 //@     CoseAttrsPlaced(req, m.Headers.Protected) && typeof(m.Headers.Protected[box(gocose.HeaderLabelCritical)]) == type([]any) && CritPlaced(req, unbox(m.Headers.Protected[box(gocose.HeaderLabelCritical)], type([]any))) &&
-//@     CoseNothingElse(req, m.Headers.Protected) }
+//@     CoseNothingElse(req, m.Headers.Protected) &&
+//@     (req.SigningAgent != "" ==> m.Headers.Unprotected[box("io.cncf.notary.signingAgent")] == box(req.SigningAgent)) &&
+//@     (req.SigningAgent == "" ==> typeof(m.Headers.Unprotected[box("io.cncf.notary.signingAgent")]) != type(string)) }
 // stmt C08 (COSE round trip, part 2): the content read back equals the request (times to whole seconds; the attributes
 // as mutual inclusion of two duplicate-free lists, each with key, value and criticality)
 //@ stmt spec func CoseReadsBack(req *signature.SignRequest, c *signature.EnvelopeContent) bool {
-//@     c.Payload.Content == req.Payload.Content && c.Payload.ContentType == req.Payload.ContentType &&
+//@     c.Payload.Content == req.Payload.Content && c.Payload.ContentType == req.Payload.ContentType && c.SignerInfo.UnsignedAttributes.SigningAgent == req.SigningAgent &&
 //@     tostring(c.SignerInfo.SignedAttributes.SigningScheme) == tostring(req.SigningScheme) &&
 //@     c.SignerInfo.SignedAttributes.SigningTime == req.SigningTime.Truncate(time.Second) &&
 //@     (req.Expiry.IsZero() ==> c.SignerInfo.SignedAttributes.Expiry.IsZero()) && (!req.Expiry.IsZero() ==> c.SignerInfo.SignedAttributes.Expiry == req.Expiry.Truncate(time.Second)) &&
